@@ -95,6 +95,12 @@ func harnessFiles(repo, pkgKey, prop string) map[string]string {
 }
 
 func loadProgram(repo, pkgKey, prop string) (*Program, error) {
+	if pkgKey == "agent" && prop == "C31" {
+		// the field-wise harness is generated from the current Config struct
+		if err := genC31(repo); err != nil {
+			return nil, fmt.Errorf("C31 generator: %v", err)
+		}
+	}
 	files := harnessFiles(repo, pkgKey, prop)
 	overlay := map[string][]byte{}
 	for v, r := range files {
